@@ -37,14 +37,20 @@ pub fn run_child_profile(run: &Run, id: &str) {
     run_child_profile_tier(run, id, run.tier)
 }
 pub fn run_child_profile_tier(run: &Run, id: &str, tier: Tier) {
+    if let Some(v) = child_summary(run, id, tier) {
+        run.merge_child("dbg", &v);
+    }
+}
+/// run check `id` in the dbg binary and return its summary (None + machinery error on failure)
+pub fn child_summary(run: &Run, id: &str, tier: Tier) -> Option<Value> {
     if profile() != "release" {
-        return; // we are the child
+        return None; // we are the child
     }
     let bin = match std::env::var("SM9MC_DBG_BIN") {
         Ok(b) => b,
         Err(_) => {
             run.machinery_error("SM9MC_DBG_BIN is not set: the dbg-profile half of this check did not run (use ./check)".into());
-            return;
+            return None;
         }
     };
     let out = std::process::Command::new(&bin)
@@ -59,11 +65,17 @@ pub fn run_child_profile_tier(run: &Run, id: &str, tier: Tier) {
             let txt = String::from_utf8_lossy(&o.stdout);
             let last = txt.lines().rev().find(|l| l.starts_with('{'));
             match last.and_then(|l| serde_json::from_str::<Value>(l).ok()) {
-                Some(v) if o.status.success() => run.merge_child("dbg", &v),
-                _ => run.machinery_error(format!("dbg child of {} failed: status {:?}, stdout tail: {}", id, o.status.code(), mccore::truncate(&txt, 400))),
+                Some(v) if o.status.success() => Some(v),
+                _ => {
+                    run.machinery_error(format!("dbg child of {} failed: status {:?}, stdout tail: {}", id, o.status.code(), mccore::truncate(&txt, 400)));
+                    None
+                }
             }
         }
-        Err(e) => run.machinery_error(format!("cannot start {}: {}", bin, e)),
+        Err(e) => {
+            run.machinery_error(format!("cannot start {}: {}", bin, e));
+            None
+        }
     }
 }
 
@@ -116,7 +128,7 @@ fn table(id: &str) -> Option<(RunFn, MetaFn)> {
         _ => return None,
     })
 }
-fn replay_table(op: &str) -> Option<ReplayFn> {
+pub(crate) fn replay_table(op: &str) -> Option<ReplayFn> {
     let pre = op.split('.').next().unwrap_or("");
     Some(match pre {
         "c04" | "c05" | "c10" | "c15" => grp::replay,
@@ -192,7 +204,8 @@ fn main() {
                 }
             };
             model_selftest(tier == Tier::Thorough && !child);
-            let run = Run::new(id, tier, seed, profile());
+            let mut run = Run::new(id, tier, seed, profile());
+            run.child = child;
             let meta = metaf(&run);
             *mccore::FINISH_META.lock().unwrap() = Some(meta.clone());
             if child {
@@ -247,6 +260,30 @@ fn refdump(seed: u64) -> Value {
         prs.push(json!({"a": hx(&a), "b": hx(&b), "bytes": refmodel::hex(&v.to_bytes())}));
     }
     json!({"q": hx(p), "r": hx(r()), "fq": fqs, "f2": f2s, "f12": f12s, "g1": jp1(&c.g1), "g2": jp2(&c.g2), "mults": mults, "pairings": prs})
+}
+
+/// outcome of one case re-executed in this process, under the case timeout: "holds", "<class>|<msg>"
+pub(crate) fn outcome_here(case: &Value) -> String {
+    let op = case["op"].as_str().unwrap_or("").to_string();
+    let f = match replay_table(&op) {
+        Some(f) => f,
+        None => return "no-handler".into(),
+    };
+    let timeout = std::time::Duration::from_secs(std::env::var("VERIF_CASE_TIMEOUT_S").ok().and_then(|s| s.parse().ok()).unwrap_or(30));
+    let (tx, rx) = std::sync::mpsc::channel();
+    let c = case.clone();
+    std::thread::Builder::new()
+        .stack_size(16 << 20)
+        .spawn(move || {
+            let r = std::panic::catch_unwind(std::panic::AssertUnwindSafe(|| f(&c)));
+            let _ = tx.send(match r {
+                Ok(Ok(())) => "holds".to_string(),
+                Ok(Err(b)) => format!("{}|{}", b.class, b.msg),
+                Err(_) => "harness-panic".to_string(),
+            });
+        })
+        .unwrap();
+    rx.recv_timeout(timeout).unwrap_or_else(|_| "non-termination|".to_string())
 }
 
 /// re-execute one recorded case on the real code, without any explorer; twice, with identical outcome
